@@ -695,6 +695,8 @@ func init() {
 			if prop == "C12" {
 				exploreChoiceOpts(r, "c12.after-prior-calls", 2, dl, 1)
 			} else {
+				exploreChoiceOpts(r, registerAfterPriorCalls(lp+".valid.P1"), 2, dl, 1)
+				exploreChoiceOpts(r, registerAfterPriorCalls(lp+".valid.P2"), 2, dl, 1)
 				exploreChoice(r, lp+".many-components", -1, dl)
 			}
 			for kind := 0; kind < 3; kind++ {
